@@ -58,7 +58,10 @@ func (w *govcShortWriter) Write(p []byte) (int, error) {
 	return room, errors.New("short write")
 }
 
-func govcTexts(maxLen int) []string {
+// govcTexts: every text up to maxLen over the alphabet (which includes the
+// bytes of the prefixes, so that a chunk may end in something that looks like
+// a prefix).
+func govcTexts(maxLen int, alphabet string) []string {
 	var out []string
 	var gen func(s string)
 	gen = func(s string) {
@@ -66,8 +69,9 @@ func govcTexts(maxLen int) []string {
 		if len(s) == maxLen {
 			return
 		}
-		gen(s + "x")
-		gen(s + "\n")
+		for i := 0; i < len(alphabet); i++ {
+			gen(s + alphabet[i:i+1])
+		}
 	}
 	gen("")
 	return out
@@ -97,13 +101,13 @@ func govcChunkings(text string) [][]string {
 }
 
 func TestGovcBoundedC20Chunks(t *testing.T) {
-	maxLen := 7
+	maxLen := 6
 	if os.Getenv("VERIF_TIER") == "thorough" {
-		maxLen = 10
+		maxLen = 8
 	}
 	evals, distinct := 0, 0
 	for _, prefix := range []string{">", "> ", ""} {
-		for _, text := range govcTexts(maxLen) {
+		for _, text := range govcTexts(maxLen, "x\n> ") {
 			want, _ := govcRender(prefix, text)
 			// the one-shot function agrees with the byte-wise renderer
 			evals++
@@ -130,17 +134,17 @@ func TestGovcBoundedC20Chunks(t *testing.T) {
 			}
 		}
 	}
-	fmt.Printf("GOVC-BOUNDED name=c20-chunk-independence bound=all_texts_of_length_<=%d_over_{x,newline}_x_3_prefixes_x_all_chunkings evaluations=%d distinct=%d\n", maxLen, evals, distinct)
+	fmt.Printf("GOVC-BOUNDED name=c20-chunk-independence bound=all_texts_of_length_<=%d_over_{x,newline,>,blank}_x_3_prefixes_x_all_chunkings evaluations=%d distinct=%d\n", maxLen, evals, distinct)
 }
 
 func TestGovcBoundedC20ShortWrites(t *testing.T) {
-	maxLen := 6
+	maxLen := 5
 	if os.Getenv("VERIF_TIER") == "thorough" {
-		maxLen = 8
+		maxLen = 7
 	}
 	evals, distinct := 0, 0
 	for _, prefix := range []string{">", "> "} {
-		for _, text := range govcTexts(maxLen) {
+		for _, text := range govcTexts(maxLen, "x\n>") {
 			want, mark := govcRender(prefix, text)
 			for _, chunks := range govcChunkings(text) {
 				for limit := 0; limit < len(want); limit++ {
@@ -185,5 +189,5 @@ func TestGovcBoundedC20ShortWrites(t *testing.T) {
 			}
 		}
 	}
-	fmt.Printf("GOVC-BOUNDED name=c20-short-write-accounting bound=all_texts_of_length_<=%d_x_2_prefixes_x_all_chunkings_x_all_stop_positions evaluations=%d distinct=%d\n", maxLen, evals, distinct)
+	fmt.Printf("GOVC-BOUNDED name=c20-short-write-accounting bound=all_texts_of_length_<=%d_over_{x,newline,>}_x_2_prefixes_x_all_chunkings_x_all_stop_positions evaluations=%d distinct=%d\n", maxLen, evals, distinct)
 }
